@@ -299,7 +299,14 @@ def rule_display(ctx):
             obs.append(bad('DISPLAY-TOTAL', inst, 'Display can panic: %s' % '; '.join(rs[:3] + ['indexing'] * bool(idx)), fn.loc,
                            'formatting an error aborts the caller'))
         else:
-            obs.append(ok('DISPLAY-TOTAL', inst, 'no unwrap/expect/panic/indexing reachable', fn.loc))
+            # `x.len() - 1` (and any other unsigned subtraction from a length): panics in debug builds when the length is 0
+            under = [n_ for _f, n_ in H.deep_nodes(ctx, fn, fn.body, 1) if n_.get('k') in ('binary', 'assignop') and str(n_.get('op')) in ('-', 'Sub', 'SubAssign', '-=')
+                     and any(y_.get('k') == 'mcall' and y_['method'] in ('len', 'count') for y_ in walk(n_.get('l') or {}))]
+            if under:
+                obs.append(bad('DISPLAY-TOTAL', inst, 'Display can panic: unchecked subtraction from a length (`len() - n`)', under[0].get('sp', fn.loc),
+                               'formatting an error with an empty list aborts the caller (debug) or prints garbage (release)'))
+            else:
+                obs.append(ok('DISPLAY-TOTAL', inst, 'no unwrap/expect/panic/indexing reachable', fn.loc))
     fn = err[0]
     # the final write!
     ws = [n for n in walk(fn.body) if n['k'] == 'macro' and n['name'].split('::')[-1] == 'write']
